@@ -29,7 +29,7 @@ ASSUMPTIONS = ["memory-error detection is as good as ASan/UBSan (clang 14)", "'b
                "crash identity = (kind, innermost in-repo function), never line numbers"]
 NONTRIVIAL_FLOOR = 20
 
-EDGE = [b"#define X(", b"#define X(a", b"#if 1 /", b"#if 1 / 0\n#endif\n", b"#if 1 % 0\n#endif\n", b"#if (-2147483647 - 1) / -1\n#endif\n",
+EDGE = [b"#define X(", b"#define X(a", b"#if 1 /", b"#if 1 / 0\n#endif\n", b"#if 1 % 0\n#endif\n", b"#if (-2147483647 - 1) / -1\n#endif\n", b"#if (-2147483647 - 1) % -1\n#endif\n", b"enum { a = (1 << 31) % -1, b = -2147483648 % -1 };\n", b"#if 1 % (1 - 1)\n#endif\n",
         b"#if 1 << 40\n#endif\n", b"#if 1 >> -1\n#endif\n", b"#if\n#endif\n", b"#elif 1\n", b"#endif\n", b"#else\n", b"#include\n", b"#include <\n", b"#include \"\n",
         b"#define\n", b"#undef\n", b"#pragma\n", b"#pragma once", b"#", b"# 12 \"x\"\n", b"\"unterminated", b"'u", b"'\\", b"R\"x(abc", b"R\"(", b"R\"toolongdelimiterxxxxxxxxxxxx(a)toolongdelimiterxxxxxxxxxxxx\"",
         b"/* unterminated", b"// line\\\n", b"int a[1^3];", b"enum { a = 1 / 0 };", b"enum { a = 1 % 0 };", b"int a[(1, 2)];", b"int a[-1];",
